@@ -434,6 +434,9 @@ class Interp:
             return res
         if nm in ("len", "time", "hash", "ord"):
             return INT
+        if nm == "map" and len(c.args) == 2 and isinstance(c.args[0], ast.Name) and c.args[0].id in ("str", "int", "repr"):
+            v = sub(c.args[1])
+            return ("list", self._conv(c.args[0].id, elem(v) if isinstance(v, tuple) else v))
         if nm == "enumerate" and arg0 is not None:
             return ("list", ("tuple", (INT, elem(sub(arg0)))))
         if nm in ("set", "list", "dict", "tuple", "frozenset") and not c.args and not c.keywords:
@@ -489,6 +492,29 @@ class Interp:
                 return sub(recv)
         if nm.endswith("NostrQuery") or nm == "NostrQuery":
             return "MODEL"
+        # a helper of the same module (or an imported package function the caller attached as `_helpers`): its return class for these argument classes
+        if isinstance(c.func, ast.Name) and getattr(self, "_depth", 0) < 3 and not c.keywords and not any(isinstance(a, ast.Starred) for a in c.args):
+            mod = getattr(self.fn, "_module", None)
+            tree = getattr(mod, "tree", None)
+            helper = None
+            if tree is not None:
+                helper = next((f for f in tree.body if isinstance(f, ast.FunctionDef) and f.name == c.func.id), None)
+            if helper is not None and helper is not self.fn and len(helper.args.args) == len(c.args) and not helper.args.vararg and not helper.args.kwarg \
+                    and not any(isinstance(y, (ast.Yield, ast.YieldFrom)) for y in ast.walk(helper)):
+                key = ("helper", id(helper), tuple(str(sub(a)) for a in c.args))
+                if key in self._memo:
+                    return self._memo[key]
+                it = Interp(helper, self.sink, self.fields, params={p.arg: sub(a) for p, a in zip(helper.args.args, c.args)}, trusted_self=self.trusted_self, globals_cls=self.globals_cls)
+                it._depth = getattr(self, "_depth", 0) + 1
+                res = None
+                for r in walk_no_nested(helper):
+                    if isinstance(r, ast.Return) and r.value is not None:
+                        res = join(res, it.cls(r.value, r))
+                self.holes.extend(it.holes)
+                self.alterations.extend(it.alterations)
+                res = res if res is not None else UNKNOWN
+                self._memo[key] = res
+                return res
         return UNKNOWN
 
     # ---- templates -----------------------------------------------------
